@@ -31,7 +31,8 @@ func (n *Node) UnmarshalXML(d *xml.Decoder, start xml.StartElement) error {
 	// Assign	"n.Attrs = start.Attr", without repeating xmlns in attributes:
 	for _, attr := range start.Attr {
 		// Do not repeat xmlns, it is already in XMLName
-		if attr.Name.Local != "xmlns" {
+		// (nor the declarations of prefixes, which the encoder generates again for namespaced attributes)
+		if attr.Name.Local != "xmlns" && attr.Name.Space != "xmlns" {
 			n.Attrs = append(n.Attrs, attr)
 		}
 	}
